@@ -127,12 +127,25 @@ def Agg.at (g : Agg) (vs : List (Option Rat)) : Option Rat :=
   | .sum => if countAt vs = 0 then Option.none else some (sumAt vs)
   | .mean => if countAt vs = 0 then Option.none else some (sumAt vs / (countAt vs : Nat))
 
-/-- `df_sum / df_mean / df_count(list of Series, join, method)` -/
+/-- what an operand (already on the joint index) contributes at position `k`: a Series its value there, a scalar
+itself at every position (`_mask(5.0, nan)` is the bool `False`, `mask2v` keeps the number, `sum` broadcasts it) -/
+def Operand.at : Operand → Nat → Option Rat
+  | .ts s, k => (s.vals[k]?).join
+  | .num q, _ => q
+
+/-- `df_sum / df_mean / df_count(list of Series and scalars, join, method)` with at least one Series: every Series is
+put on the joint index of the Series, a scalar counts at every timestamp (a NaN scalar never) -/
 def aggregate (g : Agg) (how : How) (m : Option Dir) (xs : List Operand) : Option RSeries :=
   match joinIndex how (indexesOf xs) with
   | Option.none => Option.none
   | some ix =>
-    let ss := (seriesOf xs).map fun s => reindexR s ix m
-    some { idx := ix, vals := (List.range ix.length).map fun k => g.at (column ss k) }
+    let ys := xs.map fun x => match x with
+      | .ts s => Operand.ts (reindexR s ix m)
+      | .num q => Operand.num q
+    some { idx := ix, vals := (List.range ix.length).map fun k => g.at (ys.map (·.at k)) }
+
+/-- ... without any Series (`is_num(n)`, lines 1470 / 1497): the aggregate of the scalars, a scalar -/
+def aggregateNum (g : Agg) (xs : List Operand) : Option Rat :=
+  g.at (xs.map fun x => match x with | .num q => q | .ts _ => Option.none)
 
 end Pyg.Ops
